@@ -323,14 +323,19 @@ RICH_RETS = dict(gen.DEFAULT_PROFILE, rets=['acc', 'const', 'const', 'const'])
 
 def check_C01(tier):
     # plus every argument pair of the identity family (a changed argument always shows up; an equal one never does)
-    return run_hist_prop('C01', tier, 1, 700, 40000,
+    return run_hist_prop('C01', tier, 1, 700, 40000, families=gen.SCENARIOS + [gen.scen_cache_subdir],
                          extra_cases=lambda t, ds: gen.gen_scenario_cases(core.seed() * 31 + 101, budget(t, 130, 1200), ds, [gen.scen_identity]))
 def check_C02(tier):
     from . import bkcheck
     return run_hist_prop('C02', tier, 2, 700, 40000, p_fail=0.5, families=gen.SCENARIOS + [gen.scen_cache_subdir],
-                         unit_tie=('FB.Backups (restoreAll_spec, backUp_file) describes file_backups.py', bkcheck.run))
+                         unit_tie=('FB.Backups (restoreAll_spec, backUp_file) describes file_backups.py', bkcheck.run),
+                         _after=lambda rep: [rep.violation('bulk_rollback', {'property': 'C02', 'kind': 'failing-input', 'what': q},
+                                                           note=json.dumps(q, default=str)[:250]) for q in bulk_rollback_probe(tier, rep)[:2]])
 def check_C03(tier):
-    return run_hist_prop('C03', tier, 3, 700, 40000, p_fail=0.3, p_clean=0.2, families=gen.SCENARIOS + [gen.scen_cache_subdir])
+    # ... and when two threads overwrite foreign files in a build that is rolled back, both are back
+    return run_hist_prop('C03', tier, 3, 700, 40000, p_fail=0.3, p_clean=0.2, families=gen.SCENARIOS + [gen.scen_cache_subdir],
+                         _after=lambda rep: explore_threads('C03', tier, rep, ['overwrite_foreign_then_fail', 'rebuild_two_then_fail'],
+                                                            budget(tier, 2, 3), budget(tier, 300, 5000)))
 def check_C04(tier):
     # query-dense programs, plus call-dense ones (what a later build sees depends on what earlier ones recorded),
     # plus the BuildDirs data structure on its own, state by state
@@ -478,6 +483,66 @@ def symlink_probe(tier, rep):
         if os.path.lexists(os.path.join(root, 'real', 'd2')) or not os.path.isfile(os.path.join(root, 'real', 'd1', 'out')):
             problems.append({'what': 'tree below a symbolic link after a successful and a failed build_file',
                              'real': sorted(os.listdir(os.path.join(root, 'real')))})
+    finally:
+        shutil.rmtree(root, ignore_errors=True)
+    return problems
+
+
+def bulk_rollback_probe(tier, rep):
+    """C02 at a size no generated history reaches: a committed build with several hundred outputs, a second build
+    that replaces every one of them (all are moved aside) and then fails.  Every file must be back with its bytes
+    and modification time, and a third build - identical to the first - must re-run nothing."""
+    import shutil
+    import tempfile
+    fb = realrun.load_fb()
+    FB = fb.FileBuilder
+    problems = []
+    n = 450 if tier == 'quick' else 17000      # the backup store fans out over subdirectories of 128 entries
+    root = os.path.realpath(tempfile.mkdtemp(prefix='fbh_bulk_', dir=realrun.SANDBOX_BASE))
+    try:
+        cache = os.path.join(root, 'cache.gz')
+        ran = []
+
+        def leaf(b, fn, tag, i):
+            ran.append(i)
+            with open(fn, 'w') as fh:
+                fh.write('%s-%d' % (tag, i))
+            os.utime(fn, ns=(1_600_000_000_000_000_000 + i, 1_600_000_000_000_000_000 + i))
+
+        def rootf(b, tag, fail):
+            for i in range(n):
+                b.build_file(os.path.join(root, 'out', 'd%02d' % (i % 7), 'f%05d' % i), 'leaf', leaf, tag, i)
+            if fail:
+                raise fail
+        FB.build_versioned(cache, 'n', {'leaf': 1}, rootf, 'one', None)
+
+        def snap():
+            out = {}
+            for r_, _ds, fs in os.walk(root):
+                for f in fs:
+                    p = os.path.join(r_, f)
+                    with open(p, 'rb') as fh:
+                        out[os.path.relpath(p, root)] = (fh.read(), os.stat(p).st_mtime_ns)
+            return out
+        before = snap()
+        boom = ValueError('boom')
+        try:
+            FB.build_versioned(cache, 'n', {'leaf': 2}, rootf, 'two', boom)
+            problems.append({'what': 'the failing build did not raise'})
+        except ValueError as e:
+            if e is not boom:
+                problems.append({'what': 'another exception object was raised'})
+        after = snap()
+        rep.count('bulk_rollback_outputs', n)
+        if after != before:
+            wrong = sorted(k for k in set(before) | set(after) if before.get(k) != after.get(k))
+            problems.append({'what': 'after a rolled-back build that had moved %d outputs aside, %d files differ from the pre-build state' % (n, len(wrong)),
+                             'outputs': n, 'first_differing': wrong[:5],
+                             'how_to_replay': 'build %d outputs out/d<i%%7>/f<i>; rebuild all of them with a changed version and raise; compare bytes and mtimes' % n})
+        del ran[:]
+        FB.build_versioned(cache, 'n', {'leaf': 1}, rootf, 'one', None)
+        if ran and not problems:
+            problems.append({'what': 'the build after the rolled-back one re-ran %d functions (as if the failed build had left traces)' % len(ran), 'outputs': n})
     finally:
         shutil.rmtree(root, ignore_errors=True)
     return problems
@@ -715,6 +780,8 @@ def check_C16(tier):
     rep.count('correspondence_disagreements_codec', len(tie))
     # the codec inside whole builds
     cases = corpus_cases(ds) + c16_cases(tier, ds)
+    # created directories - also the ones made for the cache file itself - survive the write/read cycle
+    cases += gen.gen_scenario_cases(core.seed() * 31 + 16, budget(tier, 40, 800), ds, [gen.scen_cache_subdir])
     cases += random_cases(tier, 300, 15000, 16, prof=RICH_RETS, dirsize=ds, p_fail=0.1)
     for i, c in enumerate(cases):
         if not str(c.get('seed', '')).startswith('corpus:') and i % 4 == 0:
@@ -820,7 +887,7 @@ def explore_threads(prop, tier, rep, names, bound, cap):
 
 C09_SCENARIOS = ['shared_new_dir', 'shared_new_dir_deep', 'sibling_dirs', 'one_fails', 'both_fail', 'fail_alone_in_dir',
                  'stale_dir', 'stale_dir_queries', 'queries_vs_build', 'subbuilds', 'three_threads', 'dup_file', 'dup_sub',
-                 'dup_sub_cached', 'dup_sub_json_equal', 'rebuild_two_then_fail', 'build_two_then_fail']
+                 'dup_sub_cached', 'dup_sub_json_equal', 'rebuild_two_then_fail', 'build_two_then_fail', 'overwrite_foreign_then_fail']
 
 
 def check_C09(tier):
